@@ -5,6 +5,7 @@ CONSTANTS
   FocusGroups <- AllGroup
   Modes <- BothModes
   MaxWeight = 2
+  RouteWeight = 0
   MaxBuilds = 2
   KeyVariant = "tagged"
 VIEW View
